@@ -232,7 +232,7 @@ fn $name() {
             if !key.is_empty() && !raw.is_empty() {
                 assert!(raw.as_ptr() as usize > key.as_ptr() as usize + key.len() - 1, "C17: the value comes after the key");
             }
-            kani::cover!(!raw.is_empty() && !key.is_empty(), "key=value");
+            kani::cover!(!raw.is_empty() && !key.is_empty(), "opt: key=value");
             kani::cover!(!rest.is_empty(), "more attributes follow");
             kani::cover!(raw.len() >= 1 && raw.as_bytes()[0] == b'"', "a value that starts with a quote");
         }
@@ -240,16 +240,9 @@ fn $name() {
 }
     };
 }
-//@ props=C17 tier=quick timeout=850 mem=14 model=0 stub_fmt=0 name=c17_attr_step_3
-//@ functions=LinkAttributeParser::next, Unquote::new, Unquote::into_raw_str, str::find, str::split_at, str::trim
-//@ bounds=one step from every remaining attribute text that is an ASCII string of 0..3 bytes (4 bytes, 15 minutes, in the thorough tier)
-//@ what=no panic; key and raw value are substrings of the input, key before value; what remains is a suffix, strictly shorter when an item was produced
-//@ outside=non-ASCII input; inputs longer than 3 bytes (4 in the thorough tier)
-c17_attr_step!(c17_attr_step_3, 3);
-
 //@ props=C17 tier=thorough timeout=2400 mem=14 model=0 stub_fmt=0 name=c17_attr_step
 //@ functions=LinkAttributeParser::next, Unquote::new, Unquote::into_raw_str, str::find, str::split_at, str::trim
-//@ bounds=one step from every remaining attribute text that is an ASCII string of 0..4 bytes
+//@ bounds=one step from every remaining attribute text that is an ASCII string of 0..4 bytes (thorough tier only: 15 minutes whatever the length bound - the cost is the symbolic execution of trim/find/split_at - and a quick check has to finish within 15 minutes)
 //@ what=no panic; key and raw value are substrings of the input, key before value; what remains is a suffix, strictly shorter when an item was produced
 //@ outside=non-ASCII input; inputs longer than 4 bytes
 c17_attr_step!(c17_attr_step, 4);
